@@ -33,7 +33,7 @@ Section SysProofs.
   Theorem sys_dropped_silent file : len (filter_chain (settings file)) < ini_max_line (sc_flt C) ->
     decision file = false -> log_exec file = Ok [].
   Proof.
-    intros L D. unfold Compose.log_exec. rewrite Hfe, chain_decides by assumption. cbn [bind]. rewrite D. cbn [negb].
+    intros L D. unfold Compose.log_exec, Compose.log_with. rewrite Hfe, chain_decides by assumption. cbn [bind]. rewrite D. cbn [negb].
     now rewrite action_el_dropped.
   Qed.
 
@@ -53,7 +53,7 @@ Section SysProofs.
     log_exec file = Ok [(sink_of (sc_out C) (out_env C known ds pid g) k (output_arg g),
                          documented_frame (devlog_prec (sc_out C)) (out_env C known ds pid g) k (ideal file))].
   Proof.
-    intros g k L D Hfit Hne Hs He Hp Hq. unfold Compose.log_exec. fold g. rewrite Hfe.
+    intros g k L D Hfit Hne Hs He Hp Hq. unfold Compose.log_exec, Compose.log_with. fold g. rewrite Hfe.
     unfold g in L |- *. rewrite chain_decides by assumption. cbn [bind]. rewrite D. cbn [negb]. fold g k.
     assert (Em : the_message C known ds g = ideal file).
     { unfold the_message, ideal. fold g. now apply log_message_exact. }
